@@ -757,19 +757,69 @@ fn run_embedded(c: &Case) -> Run {
     run
 }
 
+type MSink = MutexSink<Aggregate<Plain>>;
+
+/// `mutex`: handle 0 is the sink flattened into a parent entry, the others are clones; a close of the
+/// parent / of a clone (standalone) is an observation; other handles and guards may be alive then
 fn run_mutex(c: &Case) -> Run {
     let mut run = Run::default();
     let r = catch(|| {
-        let parent = ParentM { calls: if case_hash(&c.encode()) % 2 == 0 { MutexSink::new(Aggregate::default()) } else { MutexSink::default() } };
+        let mut parent = Some(ParentM { calls: if case_hash(&c.encode()) % 2 == 0 { MutexSink::new(Aggregate::default()) } else { MutexSink::default() } });
+        // clones[h] for h >= 1; index 0 unused (the parent)
+        let mut clones: Vec<Option<MSink>> = vec![None];
         let mut guards: Vec<Option<AnyGuard>> = vec![];
+        let mut obs: Vec<Agg> = vec![];
+        // a clone of handle h to work through, if it is alive
+        let via = |parent: &Option<ParentM>, clones: &Vec<Option<MSink>>, h: usize| -> Option<MSink> {
+            if h == 0 { parent.as_ref().map(|p| p.calls.clone()) } else { clones.get(h).and_then(|c| c.clone()) }
+        };
         for t in &c.toks {
-            match (t.tag, t.idx, &t.input) {
-                ('g', None, Some(i)) => guards.push(Some(Box::new(i.plain().close_and_merge(parent.calls.clone())))),
-                ('h', None, Some(i)) => guards.push(Some(Box::new(MergeOnDrop::new(i.plain().close(), parent.calls.clone())))),
-                ('m', None, Some(i)) => RootSink::merge(&parent.calls, i.plain().close()),
-                ('d' | 'u' | 'j', Some(g), None) => {
-                    if let Some(g) = guards.get_mut(g).and_then(|s| s.take()) {
+            let h = t.idx.unwrap_or(0);
+            match (t.tag, &t.input) {
+                ('m', Some(i)) => {
+                    // merge through the handle itself (no extra clone is alive afterwards)
+                    if h == 0 {
+                        if let Some(p) = &parent {
+                            RootSink::merge(&p.calls, i.plain().close());
+                        }
+                    } else if let Some(Some(s)) = clones.get(h) {
+                        RootSink::merge(s, i.plain().close());
+                    }
+                }
+                ('g', Some(i)) => {
+                    if let Some(s) = via(&parent, &clones, h) {
+                        guards.push(Some(Box::new(i.plain().close_and_merge(s))));
+                    }
+                }
+                ('h', Some(i)) => {
+                    if let Some(s) = via(&parent, &clones, h) {
+                        guards.push(Some(Box::new(MergeOnDrop::new(i.plain().close(), s))));
+                    }
+                }
+                ('d' | 'u' | 'j', None) => {
+                    if let Some(g) = guards.get_mut(h).and_then(|s| s.take()) {
                         drop_guard(t.tag, g);
+                    }
+                }
+                ('c', None) => {
+                    if let Some(s) = via(&parent, &clones, h) {
+                        clones.push(Some(s));
+                    }
+                }
+                ('x', None) => {
+                    if h != 0 {
+                        if let Some(slot) = clones.get_mut(h) {
+                            *slot = None;
+                        }
+                    }
+                }
+                ('C', None) => {
+                    if h == 0 {
+                        if let Some(p) = parent.take() {
+                            obs.push(agg_of(&test_metric(p)));
+                        }
+                    } else if let Some(s) = clones.get_mut(h).and_then(|s| s.take()) {
+                        obs.push(agg_of(&test_metric(s)));
                     }
                 }
                 _ => panic!("harness: bad token {}", t.encode()),
@@ -778,10 +828,16 @@ fn run_mutex(c: &Case) -> Run {
         for g in guards.iter_mut() {
             drop(g.take());
         }
-        agg_of(&test_metric(parent))
+        if let Some(p) = parent.take() {
+            obs.push(agg_of(&test_metric(p)));
+        }
+        if let Some(s) = clones.iter_mut().find_map(|s| s.take()) {
+            obs.push(agg_of(&test_metric(s)));
+        }
+        obs
     });
     match r {
-        Ok(a) => run.epochs.push((vec![a], vec![])),
+        Ok(obs) => run.epochs = obs.into_iter().map(|a| (vec![a], vec![])).collect(),
         Err(p) => run.trouble.push(format!("panic:{p}")),
     }
     run
@@ -1377,21 +1433,37 @@ fn expected_epochs(c: &Case) -> (Vec<Vec<In>>, Vec<In>) {
             epochs.push(cur);
         }
         "mutex" => {
+            // every close returns what was merged (through any handle or guard) since the previous close
+            let mut handles = vec![true];
             let mut guards: Vec<Option<In>> = vec![];
             for t in &c.toks {
-                match (t.tag, t.idx, &t.input) {
-                    ('g' | 'h', _, Some(i)) => guards.push(Some(i.clone())),
-                    ('m', _, Some(i)) => cur.push(i.clone()),
-                    ('d' | 'u' | 'j', Some(g), _) => {
-                        if let Some(Some(i)) = guards.get_mut(g).map(|s| s.take()) {
+                let h = t.idx.unwrap_or(0);
+                let live = handles.get(h).copied().unwrap_or(false);
+                match (t.tag, &t.input) {
+                    ('g' | 'h', Some(i)) if live => guards.push(Some(i.clone())),
+                    ('m', Some(i)) if live => cur.push(i.clone()),
+                    ('d' | 'u' | 'j', None) => {
+                        if let Some(Some(i)) = guards.get_mut(h).map(|s| s.take()) {
                             cur.push(i);
                         }
+                    }
+                    ('c', None) if live => handles.push(true),
+                    ('x', None) if live && h != 0 => handles[h] = false,
+                    ('C', None) if live => {
+                        handles[h] = false;
+                        epochs.push(std::mem::take(&mut cur));
                     }
                     _ => {}
                 }
             }
             cur.extend(guards.into_iter().flatten());
-            epochs.push(cur);
+            if handles[0] {
+                handles[0] = false;
+                epochs.push(std::mem::take(&mut cur));
+            }
+            if handles.iter().any(|h| *h) {
+                epochs.push(std::mem::take(&mut cur));
+            }
         }
         "worker" => {
             let mut handles = vec![true];
@@ -1821,14 +1893,40 @@ fn gen_case(rng: &mut Rng, pipeline: &str, nasty: bool, max_len: u64) -> Case {
         }
         "mutex" => {
             let mut guards = 0usize;
+            let mut handles = vec![true];
             for _ in 0..n {
-                match rng.below(5) {
-                    0 | 1 => {
-                        toks.push(Tok::new(guard_tag(rng), None, Some(gen_input(rng, nasty))));
-                        guards += 1;
+                let live: Vec<usize> = (0..handles.len()).filter(|h| handles[*h]).collect();
+                let h = if live.is_empty() || (nasty && rng.chance(1, 12)) { rng.below(handles.len() as u64 + 1) as usize } else { *rng.pick(&live) };
+                let idx = if h == 0 && rng.chance(1, 2) { None } else { Some(h) };
+                let is_live = handles.get(h).copied().unwrap_or(false);
+                match rng.below(20) {
+                    0..=5 => {
+                        toks.push(Tok::new(guard_tag(rng), idx, Some(gen_input(rng, nasty))));
+                        if is_live {
+                            guards += 1;
+                        }
                     }
-                    2 if guards > 0 => toks.push(Tok::new(drop_tag(rng), Some(rng.below(guards as u64 + if nasty { 1 } else { 0 }) as usize), None)),
-                    _ => toks.push(Tok::new('m', None, Some(gen_input(rng, nasty)))),
+                    6..=8 if guards > 0 => toks.push(Tok::new(drop_tag(rng), Some(rng.below(guards as u64 + if nasty { 1 } else { 0 }) as usize), None)),
+                    9..=11 => {
+                        toks.push(Tok::new('c', idx, None));
+                        if is_live {
+                            handles.push(true);
+                        }
+                    }
+                    12 => {
+                        toks.push(Tok::new('x', Some(h), None));
+                        if is_live && h != 0 {
+                            handles[h] = false;
+                        }
+                    }
+                    13..=14 => {
+                        // close with whatever clones / guards are alive
+                        toks.push(Tok::new('C', idx, None));
+                        if is_live {
+                            handles[h] = false;
+                        }
+                    }
+                    _ => toks.push(Tok::new('m', idx, Some(gen_input(rng, nasty)))),
                 }
             }
         }
@@ -1940,6 +2038,33 @@ fn max_overlap(c: &Case) -> usize {
         }
     }
     best
+}
+
+/// `mutex`: for every explicit close, how many other handles + outstanding guards were alive
+fn mutex_close_overlap(c: &Case) -> Vec<usize> {
+    let mut handles = vec![true];
+    let mut guards: Vec<bool> = vec![];
+    let mut out = vec![];
+    for t in &c.toks {
+        let h = t.idx.unwrap_or(0);
+        let live = handles.get(h).copied().unwrap_or(false);
+        match (t.tag, t.input.is_some()) {
+            ('g' | 'h', true) if live => guards.push(true),
+            ('d' | 'u' | 'j', false) => {
+                if let Some(g) = guards.get_mut(h) {
+                    *g = false;
+                }
+            }
+            ('c', false) if live => handles.push(true),
+            ('x', false) if live && h != 0 => handles[h] = false,
+            ('C', false) if live => {
+                handles[h] = false;
+                out.push(handles.iter().filter(|x| **x).count() + guards.iter().filter(|x| **x).count());
+            }
+            _ => {}
+        }
+    }
+    out
 }
 
 fn is_nontrivial(c: &Case) -> bool {
@@ -2489,6 +2614,11 @@ fn main() {
                 let run = run_impl(c);
                 rep.case(&enc, is_nontrivial(c));
                 rep.bump_by("flush observations", run.epochs.len() as u64);
+                if c.pipeline() == "mutex" {
+                    for k in mutex_close_overlap(c) {
+                        rep.bump(&format!("mutex:close with {} other handle(s)/guard(s) alive", k.min(3)));
+                    }
+                }
                 if c.pipeline() == "gated" {
                     rep.bump(&format!("gated:max flush requests in flight behind the closed gate:{}", max_overlap(c).min(4)));
                 }
